@@ -22,7 +22,7 @@ MIN_NONTRIVIAL = {"quick": 80, "thorough": 800}
 REQUIRED_PROBES = ["create_exit"]
 REQUIRED_FEATURES = ["bins:common", "bins:per-cell", "cells:has-empty", "cells:1", "mode:symm", "mode:square",
                      "create:ordered", "create:ordered-false-flag", "names:natsort-trap", "dtypes:count-float",
-                     "columns:extra"]
+                     "columns:extra", "bins:common-with-extra-column"]
 
 CELL_NAMES = ["c2", "c10", "c1", "cell_A.1", "GSM123-rep.2", "10", "2", "sample 3", "Cell", "cell", "x.y.z", "a-b_c",
               "c02", "c010"]
@@ -81,7 +81,19 @@ def one_file(ctx, cid, rng, idx):
             if k % 2 == 0:
                 b["tag"] = rng.integers(0, 50, size=n) + 100 * k
                 extra[nm + "::tag"] = b["tag"].to_numpy()
+            if k % 3 == 1:
+                # column order is the caller's business: extras first / in between
+                order = ["weight", "chrom", "start"] + (["tag"] if "tag" in b.columns else []) + ["end"]
+                b = b[order]
+                c_order = True
             bins_arg[nm] = b
+    common_extra = None
+    if not per_cell_bins and rng.random() < 0.4:
+        # a common bin table that carries an extra column (first, in between or last)
+        common_extra = np.round(rng.random(n), 4)
+        b = bins.copy()
+        b.insert(int([0, 2, 3][int(rng.integers(3))]), "cov", common_extra)
+        bins_arg = b
     pix_arg = {}
     for nm, P in cells.items():
         df = gen.pixels_frame(P, {"score": scores[nm]} if extra_col else None,
@@ -131,6 +143,11 @@ def one_file(ctx, cid, rng, idx):
                 c.check(shared, "bin-table-not-shared", f"cell {nm}: bins/chrom,start,end are not the root's objects (stored again)")
                 for key, msg in h5state.validate_collection(g):
                     c.fail(f"cell-invalid:{key}", f"cell {nm}: {msg}")
+                if common_extra is not None:
+                    cv = g["bins/cov"][:] if "cov" in g["bins"] else None
+                    c.check(cv is not None and np.array_equal(cv, common_extra), "common-extra-bin-column-lost",
+                            f"cell {nm}: the extra column of the common bin table is missing or different")
+                    c.feature("bins:common-with-extra-column")
                 if per_cell_bins:
                     w = g["bins/weight"][:] if "weight" in g["bins"] else None
                     c.check(w is not None and np.array_equal(w, extra[nm]), "per-cell-column-mixed-up",
